@@ -61,6 +61,8 @@ TEXT_CLASSES = {
 }
 
 TEXT_CLASS_NAMES = sorted(TEXT_CLASSES)
+# classes a check has to ask for by name (not part of the default alphabet)
+TEXT_CLASSES["surrogate"] = _join(_WORD, st.sampled_from([u"\ud800", u"\udfff", u"\udcff"]), st.sampled_from(["", "x"]))
 
 
 def classify_text(s):
@@ -309,6 +311,33 @@ def iter_secs(spec):
         yield s
         for x in iter_secs(s):
             yield x
+
+
+def iter_secs_with_path(spec, prefix=""):
+    for s in spec.get("sections", []):
+        path = prefix + "/" + s["name"]
+        yield s, path
+        for x in iter_secs_with_path(s, path):
+            yield x
+
+
+def add_links(spec, picks):
+    """Give some Sections a stored (not resolved) link to another Section of the document or an
+    include of a file that is never fetched.  ``picks``: list of [i, j, kind]."""
+    secs = list(iter_secs_with_path(spec))
+    if not secs:
+        return spec
+    for i, j, kind in picks:
+        s, spath = secs[i % len(secs)]
+        t, tpath = secs[j % len(secs)]
+        if s.get("link") or s.get("include"):
+            continue
+        if kind == "include":
+            s["include"] = "file:///nonexistent/included-%d.xml#%s" % (j % 3, tpath)
+        elif s is not t and not tpath.startswith(spath + "/") and not spath.startswith(tpath + "/") \
+                and all(c not in tpath for c in "#") and "/" not in t["name"]:
+            s["link"] = tpath
+    return spec
 
 
 def iter_props(spec):
